@@ -43,7 +43,9 @@ THEOREMS = {
     "strncmp": ["Tetl.C18.Props.strncmp_eq"], "memcmp": ["Tetl.C18.Props.memcmp_eq"],
     "strchr": ["Tetl.C18.Props.strchr_eq"], "memchr": ["Tetl.C18.Props.memchr_eq"],
     "memcpy": ["Tetl.C18.Props.memcpy_eq"], "memset": ["Tetl.C18.Props.memset_eq"],
-    "memmove": ["Tetl.C18.Props.memmove_eq"],
+    "memmove": ["Tetl.C18.Props.memmove_eq"], "strrchr": ["Tetl.C18.Props.strrchr_eq"],
+    "strspn": ["Tetl.C18.Props.strspn_eq"], "strcspn": ["Tetl.C18.Props.strcspn_eq"],
+    "strpbrk": ["Tetl.C18.Props.strpbrk_eq"], "strstr": ["Tetl.C18.Props.strstr_eq"],
     "div": ["Tetl.C18.Props.div_eq", "Tetl.C18.Props.div_law"], "abs": ["Tetl.C18.Props.abs_eq"],
 }
 
@@ -421,5 +423,8 @@ LEVEL_NOTE = ("Trusted: Lean kernel + propext/Classical.choice/Quot.sound; the h
               "g++-12/ASan/UBSan; glibc 2.36 as oracle for spec validation. The clang-only __builtin_* branches are not "
               "exercised (harness built with g++). Functions without a theorem yet are listed in evidence "
               "coverage.correspondence_only and are covered by the differential run only.")
-# functions modelled and compared on every run but without a Lean theorem yet
-CORRESPONDENCE_ONLY = ["strrchr/wcsrchr", "strspn/wcsspn", "strcspn/wcscspn", "strpbrk/wcspbrk", "strstr/wcsstr"]
+# functions modelled and compared on every run but without a Lean theorem: none (every modelled function has one).
+CORRESPONDENCE_ONLY = []
+# observed by the differential run only, outside every model
+UNPROVED_OBSERVED = ["strrchr/wcsrchr: the `str == nullptr` early return (a pointer is an index into an allocation in the model)",
+                     "the null-pointer TETL_PRECONDITIONs of strcpy/strncpy/memmove/strchr (contract checks are off; see C05)"]
